@@ -285,8 +285,8 @@ func (g *Gen) RegSet(cfg GenCfg) []*Reg {
 					if plans[o.reg].rank >= pl.rank {
 						continue
 					}
-					if o.id.ty == tVoid {
-						continue
+					if o.id.ty == tVoid && (o.id.name == 0 || o.id.name >= 1000) {
+						continue // (a named initializer can be somebody's dependency: `struct{}` under that name)
 					}
 					if o.id.group != 0 {
 						k := ident{o.id.ty, 0, o.id.group}
